@@ -208,7 +208,8 @@ def groupRec : ExcRec :=
 theorem groupRec_builtin : BuiltinRec groupRec := ⟨rfl, rfl, by decide, by decide, rfl⟩
 
 /-- **C09_counterexample_group**: concretely, under default switches on both sides the receiver's `load` of a remote
-`ExceptionGroup` raises TypeError (out of `serve()`), so the full statement is false of the pinned code. -/
+`ExceptionGroup` raises TypeError — which is what the requester then receives instead of the class —, so the full
+statement is false of the code. -/
 theorem C09_counterexample_group :
     (∃ p, dumpExc defaultSendCfg groupRec = .ok p
         ∧ requesterSees (loadExc defaultRecvCfg groupEnv p) = .error .typeError)
